@@ -165,7 +165,7 @@ campaign_build.shards = (4, 16)
 # sizeof paths
 # ---------------------------------------------------------------------------------------------
 UNSIZABLE = {"varint", "zigzag", "cstr", "gbytes", "gstr", "grange", "runtil", "nullterm", "nullstrip", "select", "optional",
-             "terminated", "stopif", "error", "compressed", "union", "lazybound"}
+             "terminated", "stopif", "error", "compressed", "union", "lazybound", "offsettedend"}
 
 
 class Unsure(Exception):
